@@ -17,7 +17,11 @@ package snapshot
 // that file cut to half its length (an interrupted copy); for every image in
 // which a directory vanished since the previous image (one os.RemoveAll), the
 // states with only its files, only its sub-directories, or all its entries
-// removed.
+// removed. On top of these, engine/vfs TornVariants derives for every step that
+// wrote exactly one regular file (plan file, meta.json, checksum sidecar, database
+// copy) the file with 0 / half / all but one of its new bytes, and for every step
+// that only removed entries the first half of the files gone and all files gone
+// with the directories still present.
 //
 // Every image is then recovered: the same sequence is run again on a copy of
 // the image ("the next node start"). Oracle, exactly the statement:
@@ -478,9 +482,55 @@ func c08Record(t *testing.T, root, imgDir string, prefix []string) ([]c08Image, 
 			}
 		}
 	}
+	// the generic in-call cuts (engine/vfs TornVariants): for every step that wrote exactly
+	// one regular file - a plan file, meta.json, a checksum sidecar, a database copy - the
+	// file holding 0 / half / all but one of its new bytes (and, for a rewrite in place, the
+	// new prefix over the old bytes); for every step that only removed entries, the first
+	// half of the files gone, and all files gone with the directories still present
+	for _, im := range imgs {
+		vars, kind, err := rec.TornVariants(im, vfs.TornOptions{Overlay: true, Removals: true})
+		if err != nil {
+			t.Fatalf("c08: torn variants of %s: %v", im.Label, err)
+		}
+		c08TornMu.Lock()
+		if strings.HasPrefix(kind, "multi:") {
+			c08TornKinds["multi (not decomposed)"]++
+		} else {
+			c08TornKinds[strings.SplitN(kind, ":", 2)[0]]++
+		}
+		c08TornMu.Unlock()
+		step := fmt.Sprintf("%s#%d", im.Label, im.Hits)
+		for _, v := range vars {
+			// re-writing a file that an earlier crash of this sequence already left cut
+			// shows up as an "extension" of the cut file, and cutting that again only
+			// yields one more prefix length of the same file (a halving chain that
+			// never ends): prefixes of 0, half and all-but-one bytes of that file have
+			// been recovered at the level where it was first cut
+			if i := strings.Index(v.Torn, " extended by "); i > 0 {
+				again := false
+				for _, p := range prefix {
+					if strings.Contains(p, "~cut{"+v.Torn[:i]+" ") {
+						again = true
+					}
+				}
+				if again {
+					c08TornMu.Lock()
+					c08TornKinds["re-cut of an already cut file (skipped)"]++
+					c08TornMu.Unlock()
+					continue
+				}
+			}
+			out = append(out, c08Image{Path: append(append([]string(nil), prefix...), step+"~cut{"+v.Torn+"}"), Dir: v.Dir, Hash: v.Hash})
+		}
+	}
 	n, labels := rec.Points()
 	return out, n, labels
 }
+
+var (
+	c08TornMu    sync.Mutex
+	c08TornKinds = map[string]int{}
+)
 
 // c08Grown lists the *.db files of cur that exist, smaller, at the same place in
 // prev (a file being filled in place; a file that merely moved with a renamed
@@ -541,7 +591,7 @@ type c08Replay struct {
 func TestVerif_C08(t *testing.T) {
 	r := kit.Start(t, "C08", "upgrade")
 	defer r.Finish()
-	r.Rule("shapes {v7 x 1,2,3 snapshots (+older meta-only, +empty state), v8 x 1,2,3 snapshots} x every crash image of the start-up sequence Upgrade7To8 -> Upgrade8To10 -> NewStore (one image per instrumented point at which the raft directory changed, + a half-written variant per database file growing in place + three partly-removed variants per directory removed) [thorough: x every crash image of the recovery run of each new distinct image, repeated until no new image content appears or depth 6]; each image is recovered by the same start-up sequence on a copy. Distinct = (input format, crash-state class, outcome); states = distinct image content hashes")
+	r.Rule("shapes {v7 x 1,2,3 snapshots (+older meta-only, +empty state), v8 x 1,2,3 snapshots} x every crash image of the start-up sequence Upgrade7To8 -> Upgrade8To10 -> NewStore (one image per instrumented point at which the raft directory changed, + a half-written variant per database file growing in place + three partly-removed variants per directory removed + the in-call cuts of engine/vfs TornVariants: every single-file write cut at 0/half/all-but-one bytes, every removal cut after half of the files and after all files with the directories still present; a file already cut earlier in the same crash sequence is not cut again at further prefix lengths) [thorough: x every crash image of the recovery run of each new distinct image, repeated until no new image content appears or depth 6]; each image is recovered by the same start-up sequence on a copy. Distinct = (input format, crash-state class, outcome); states = distinct image content hashes")
 	r.Assume("process-crash model: completed file-system calls are kept, the call in flight is cut; SQLite's own journal-mode change (db.EnsureWALMode) is atomic")
 	r.Assume("a persisted plan's absolute paths are rewritten when an image is recovered in a copy of the directory it was taken in")
 	restore := commonQuietLogs()
@@ -742,6 +792,7 @@ func TestVerif_C08(t *testing.T) {
 	r.Set("images_taken", rawImages)
 	r.Set("images_distinct", distinctImages)
 	r.Set("depth_bound", depth)
+	r.Set("steps_by_kind_for_in_call_cuts", c08TornKinds)
 	r.Set("new_images_per_level", levelSizes)
 	r.Set("deepest_level_with_new_images", maxDepthSeen)
 	r.Set("shapes_closed_under_crash_recovery", closedShapes)
